@@ -696,6 +696,455 @@ fn oracle_nn_mul_winv(r: &Req, out: &str) -> Result<(), String> {
     oracle_nn_mulw_general(r, out, true)
 }
 
+// ------------------------------------------------------------------ PSD model channels
+//
+// The LAPACK results are taken from the implementation: the generator runs `update_scaling`
+// on (s,z), reads λ, R, R⁻¹ (and the Cholesky/SVD factors, RRᵀ) through the hooks and puts
+// them into the request; `run` rebuilds the same cone from (s,z) and calls the function, the
+// Lean model evaluates it from the R, R⁻¹, λ in the request.  Functions that contain a BLAS
+// product (gemm/syrk/syr2k accumulate in a different order than the model's left fold) are
+// compared with a relative tolerance `PSD_TOL`; the BLAS-free ones are bit-exact.
+use clarabel::verif_hooks::cones::verif_hooks_psdcone as hp;
+use clarabel::verif_hooks::cones::verif_hooks_psdcone_scaling as hps;
+
+// calibrated: no mismatch in 3×6000 thorough cases per channel at (1e-13, 1e-13); first ones at 1e-14
+const PSD_TOL: Tol = Tol::Rel(1e-11, 1e-11);
+
+fn tri(n: usize) -> usize {
+    n * (n + 1) / 2
+}
+fn psd_cone(r: &Req) -> (bool, PSDTriangleCone<f64>) {
+    let mut k = PSDTriangleCone::<f64>::new(r.u("n"));
+    let ok = k.update_scaling(&r.fs("s"), &r.fs("z"), 1.0, PD);
+    (ok, k)
+}
+fn run_psd_svec_to_mat(r: &Req) -> String {
+    let (n, x) = (r.u("n"), r.fs("x"));
+    if x.len() != tri(n) {
+        return "err:unmodelled-size".into();
+    }
+    Line::out().fs("m", &hp::svec_to_mat_dense(n, &x)).done()
+}
+fn run_psd_mat_to_svec(r: &Req) -> String {
+    let (n, m) = (r.u("n"), r.fs("m"));
+    if m.len() != n * n {
+        return "err:unmodelled-size".into();
+    }
+    Line::out().fs("x", &hp::mat_to_svec_dense(n, &m)).done()
+}
+/// packed upper triangle (column by column) of a column-major m×m matrix
+fn pack_triu(m: usize, a: &[f64]) -> Vec<f64> {
+    let mut v = Vec::with_capacity(tri(m));
+    for c in 0..m {
+        for r in 0..=c {
+            v.push(a[r + m * c]);
+        }
+    }
+    v
+}
+fn run_psd_skron(r: &Req) -> String {
+    let (n, a) = (r.u("n"), r.fs("a"));
+    if a.len() != n * n {
+        return "err:unmodelled-size".into();
+    }
+    let out = hps::skron_dense(n, &a);
+    // `skron` must leave the strict lower triangle untouched
+    let bm = tri(n);
+    for c in 0..bm {
+        for rr in c + 1..bm {
+            if out[rr + bm * c] != 0.0 {
+                return "skron-wrote-below-diagonal".into();
+            }
+        }
+    }
+    Line::out().fs("hs", &pack_triu(bm, &out)).done()
+}
+fn run_psd_update_tail(r: &Req) -> String {
+    let (ok, k) = psd_cone(r);
+    if !ok {
+        return "update_scaling=false".into();
+    }
+    let n = r.u("n");
+    let mut hs = vec![0.0; tri(tri(n))];
+    k.get_Hs(&mut hs);
+    Line::out().fs("lam", hp::λ(&k)).fs("lamisqrt", hp::Λisqrt(&k)).fs("r", hp::R(&k)).fs("rinv", hp::Rinv(&k))
+        .fs("rrt", hps::workmat1(&k)).fs("hs", &hs).done()
+}
+fn run_psd_get_hs(r: &Req) -> String {
+    let (ok, k) = psd_cone(r);
+    if !ok {
+        return "update_scaling=false".into();
+    }
+    let mut hs = vec![0.0; r.u("len")];
+    k.get_Hs(&mut hs);
+    Line::out().fs("hs", &hs).done()
+}
+fn run_psd_set_identity(r: &Req) -> String {
+    let n = r.u("n");
+    let mut k = PSDTriangleCone::<f64>::new(n);
+    if r.has("s") {
+        // a non-trivial scaling first: `set_identity_scaling` must not depend on the history
+        k.update_scaling(&r.fs("s"), &r.fs("z"), 1.0, PD);
+    }
+    k.set_identity_scaling();
+    let mut hs = vec![0.0; tri(tri(n))];
+    k.get_Hs(&mut hs);
+    Line::out().fs("r", hp::R(&k)).fs("rinv", hp::Rinv(&k)).fs("hs", &hs).done()
+}
+fn run_psd_mul_w(r: &Req) -> String {
+    let (_, mut k) = psd_cone(r);
+    let mut y = r.fs("y");
+    k.mul_W(matrix_shape(r.u("t") != 0), &mut y, &r.fs("x"), r.f("a"), r.f("b"));
+    Line::out().fs("y", &y).done()
+}
+fn run_psd_mul_winv(r: &Req) -> String {
+    let (_, mut k) = psd_cone(r);
+    let mut y = r.fs("y");
+    k.mul_Winv(matrix_shape(r.u("t") != 0), &mut y, &r.fs("x"), r.f("a"), r.f("b"));
+    Line::out().fs("y", &y).done()
+}
+fn run_psd_mul_hs(r: &Req) -> String {
+    let (_, mut k) = psd_cone(r);
+    let x = r.fs("x");
+    let mut y = vec![0.0; x.len()];
+    let mut work = vec![0.0; x.len()];
+    k.mul_Hs(&mut y, &x, &mut work);
+    Line::out().fs("y", &y).done()
+}
+fn run_psd_circ_op(r: &Req) -> String {
+    let (y, z) = (r.fs("y"), r.fs("z"));
+    let mut k = PSDTriangleCone::<f64>::new(r.u("n"));
+    let mut x = vec![0.0; y.len()];
+    k.circ_op(&mut x, &y, &z);
+    Line::out().fs("x", &x).done()
+}
+fn run_psd_lam_inv_circ_op(r: &Req) -> String {
+    let (_, mut k) = psd_cone(r);
+    let z = r.fs("x");
+    let mut x = vec![0.0; z.len()];
+    k.λ_inv_circ_op(&mut x, &z);
+    Line::out().fs("x", &x).done()
+}
+fn run_psd_affine_ds(r: &Req) -> String {
+    let (_, k) = psd_cone(r);
+    let mut ds = vec![f64::NAN; r.u("len")];
+    k.affine_ds(&mut ds, &r.fs("s"));
+    Line::out().fs("ds", &ds).done()
+}
+fn run_psd_combined_ds_shift(r: &Req) -> String {
+    let (_, mut k) = psd_cone(r);
+    let (mut dz, mut ds) = (r.fs("dz"), r.fs("ds"));
+    let mut shift = vec![0.0; dz.len()];
+    k.combined_ds_shift(&mut shift, &mut dz, &mut ds, r.f("sigmamu"));
+    Line::out().fs("shift", &shift).fs("stepz", &dz).fs("steps", &ds).done()
+}
+fn run_psd_ds_from_dz_offset(r: &Req) -> String {
+    let (_, mut k) = psd_cone(r);
+    let ds = r.fs("ds");
+    let mut out = vec![0.0; ds.len()];
+    let mut work = vec![0.0; ds.len()];
+    k.Δs_from_Δz_offset(&mut out, &ds, &mut work, &r.fs("z"));
+    Line::out().fs("out", &out).done()
+}
+
+// ---- direct oracles for the PSD functions (dense re-evaluation, independent of the model)
+
+fn cm_to_rows(n: usize, a: &[f64]) -> Vec<Vec<f64>> {
+    (0..n).map(|i| (0..n).map(|j| a[i + n * j]).collect()).collect()
+}
+fn transpose(a: &[Vec<f64>]) -> Vec<Vec<f64>> {
+    let n = a.len();
+    (0..n).map(|i| (0..n).map(|j| a[j][i]).collect()).collect()
+}
+fn fro(a: &[Vec<f64>]) -> f64 {
+    a.iter().flatten().map(|v| v * v).sum::<f64>().sqrt()
+}
+fn parsed(out: &str, key: &str) -> Result<Vec<f64>, String> {
+    let o = Req::parse(&format!("x {}", out)).ok_or("unparsable response")?;
+    if !o.has(key) {
+        return Err(format!("implementation returned {}", out));
+    }
+    Ok(o.fs(key))
+}
+/// `svec_to_mat` gives a symmetric matrix whose `mat_to_svec` is the argument again
+fn oracle_psd_svec_to_mat(r: &Req, out: &str) -> Result<(), String> {
+    let (n, x) = (r.u("n"), r.fs("x"));
+    if x.len() != tri(n) {
+        return Ok(());
+    }
+    let m = cm_to_rows(n, &parsed(out, "m")?);
+    for i in 0..n {
+        for j in 0..n {
+            if m[i][j].to_bits() != m[j][i].to_bits() {
+                return Err(format!("svec_to_mat result not symmetric at ({},{})", i, j));
+            }
+        }
+    }
+    let back = mat_to_svec(&m);
+    for (a, b) in back.iter().zip(&x) {
+        if !((a - b).abs() <= 4e-16 * b.abs()) {
+            return Err(format!("mat_to_svec(svec_to_mat(x)) = {} differs from x = {}", a, b));
+        }
+    }
+    Ok(())
+}
+/// `⟨svec M, svec M⟩ = tr(Mₛ Mₛ)` with `Mₛ` the symmetric part, and the round trip gives `Mₛ`
+fn oracle_psd_mat_to_svec(r: &Req, out: &str) -> Result<(), String> {
+    let (n, m) = (r.u("n"), r.fs("m"));
+    if m.len() != n * n {
+        return Ok(());
+    }
+    let x = parsed(out, "x")?;
+    let mm = cm_to_rows(n, &m);
+    let ms: Vec<Vec<f64>> = (0..n).map(|i| (0..n).map(|j| 0.5 * (mm[i][j] + mm[j][i])).collect()).collect();
+    let trace: f64 = (0..n).map(|i| (0..n).map(|j| ms[i][j] * ms[j][i]).sum::<f64>()).sum();
+    if !((dot(&x, &x) - trace).abs() <= 1e-14 * trace.abs()) {
+        return Err(format!("<svec M, svec M> = {} but tr(Ms Ms) = {}", dot(&x, &x), trace));
+    }
+    let back = svec_to_mat(&x, n);
+    for i in 0..n {
+        for j in 0..n {
+            if !((back[i][j] - ms[i][j]).abs() <= 1e-15 * (mm[i][j].abs() + mm[j][i].abs())) {
+                return Err(format!("svec_to_mat(mat_to_svec(M)) is not the symmetric part at ({},{})", i, j));
+            }
+        }
+    }
+    Ok(())
+}
+/// the packed block acts as `x ↦ svec(A X A)` on a fixed symmetric test matrix
+fn oracle_psd_skron(r: &Req, out: &str) -> Result<(), String> {
+    let (n, a) = (r.u("n"), r.fs("a"));
+    if a.len() != n * n {
+        return Ok(());
+    }
+    let h = parsed(out, "hs")?;
+    let bm = tri(n);
+    let au = cm_to_rows(n, &a);
+    let am: Vec<Vec<f64>> = (0..n).map(|i| (0..n).map(|j| if i <= j { au[i][j] } else { au[j][i] }).collect()).collect();
+    let xm: Vec<Vec<f64>> = (0..n).map(|i| (0..n).map(|j| 1.0 / (1.0 + (i + j) as f64) - if (i + j) % 3 == 0 { 0.75 } else { 0.0 }).collect()).collect();
+    let x = mat_to_svec(&xm);
+    let want = mat_to_svec(&matmul(&matmul(&am, &xm), &am));
+    let hx: Vec<f64> = (0..bm).map(|rr| (0..bm).map(|c| {
+        let (lo, hi) = if rr <= c { (rr, c) } else { (c, rr) };
+        h[tri(hi) + lo] * x[c]
+    }).sum()).collect();
+    let d = rel(&hx, &want, fro(&am) * fro(&am) * fro(&xm), 1e-13);
+    if !(d <= 1.0) {
+        return Err(format!("skron(A)·svec(X) is not svec(A X A): normalised defect {:.3e}", d));
+    }
+    Ok(())
+}
+/// `y_out = a·svec(RxᵀXRx) + b·y` (shape N) resp. `a·svec(RxXRxᵀ) + b·y` (shape T), evaluated
+/// densely from the R / R⁻¹ of the request
+fn oracle_psd_mulw_general(r: &Req, out: &str, inverse: bool) -> Result<(), String> {
+    let n = r.u("n");
+    let got = parsed(out, "y")?;
+    let rx = cm_to_rows(n, &r.fs(if inverse { "rinv" } else { "r" }));
+    let (x, yin, a, b) = (r.fs("x"), r.fs("y"), r.f("a"), r.f("b"));
+    let xm = svec_to_mat(&x, n);
+    let p = if r.u("t") != 0 { matmul(&matmul(&rx, &xm), &transpose(&rx)) } else { matmul(&matmul(&transpose(&rx), &xm), &rx) };
+    let ps = mat_to_svec(&p);
+    let want: Vec<f64> = (0..x.len()).map(|i| a * ps[i] + if b == 0.0 { 0.0 } else { b * yin[i] }).collect();
+    let scale = a.abs() * fro(&rx) * fro(&rx) * nrm(&x) + b.abs() * nrm(&yin);
+    let d = rel(&got, &want, scale, 1e-13);
+    if !(d <= 1.0) {
+        return Err(format!("{} is not α·svec(R X R') + β·y: normalised defect {:.3e}", if inverse { "mul_Winv" } else { "mul_W" }, d));
+    }
+    Ok(())
+}
+fn oracle_psd_mul_w(r: &Req, out: &str) -> Result<(), String> {
+    oracle_psd_mulw_general(r, out, false)
+}
+fn oracle_psd_mul_winv(r: &Req, out: &str) -> Result<(), String> {
+    oracle_psd_mulw_general(r, out, true)
+}
+fn oracle_psd_circ_op(r: &Req, out: &str) -> Result<(), String> {
+    let n = r.u("n");
+    let got = parsed(out, "x")?;
+    let (ym, zm) = (svec_to_mat(&r.fs("y"), n), svec_to_mat(&r.fs("z"), n));
+    let (p, q) = (matmul(&ym, &zm), matmul(&zm, &ym));
+    let h: Vec<Vec<f64>> = (0..n).map(|i| (0..n).map(|j| 0.5 * (p[i][j] + q[i][j])).collect()).collect();
+    let d = rel(&got, &mat_to_svec(&h), fro(&ym) * fro(&zm), 1e-13);
+    if !(d <= 1.0) {
+        return Err(format!("circ_op is not svec((YZ+ZY)/2): normalised defect {:.3e}", d));
+    }
+    Ok(())
+}
+/// `Λ ∘ (λ \ z) = z` with `Λ = diag(λ)`, evaluated densely
+fn oracle_psd_lam_inv(r: &Req, out: &str) -> Result<(), String> {
+    let n = r.u("n");
+    let got = parsed(out, "x")?;
+    let lam = r.fs("lam");
+    let z = r.fs("x");
+    let xm = svec_to_mat(&got, n);
+    let h: Vec<Vec<f64>> = (0..n).map(|i| (0..n).map(|j| 0.5 * (lam[i] + lam[j]) * xm[i][j]).collect()).collect();
+    let d = rel(&mat_to_svec(&h), &z, nrm(&z), 1e-14);
+    if !(d <= 1.0) {
+        return Err(format!("Λ∘(λ\\z) is not z: normalised defect {:.3e}", d));
+    }
+    Ok(())
+}
+fn oracle_psd_affine_ds(r: &Req, out: &str) -> Result<(), String> {
+    let n = r.u("n");
+    if r.u("len") != tri(n) {
+        return Ok(());
+    }
+    let got = parsed(out, "ds")?;
+    let lam = r.fs("lam");
+    let mut m = vec![vec![0.0; n]; n];
+    for i in 0..n {
+        m[i][i] = lam[i] * lam[i];
+    }
+    if got != mat_to_svec(&m) {
+        return Err("affine_ds is not svec(diag(λ²))".into());
+    }
+    Ok(())
+}
+
+// ------------------------------------------------------------------ histories on one cone object
+//
+// `ops=u,i,…`: a sequence of `update_scaling(s<k>, z<k>)` / `set_identity_scaling()` calls on ONE
+// cone object; after every operation the scaling state, `get_Hs` and `mul_Hs x` are reported.
+// Correspondence is exact.  The oracle replays the history and checks after every operation
+// that the operator represented by the data handed to the KKT assembly (dense packed block,
+// diagonal, or sparse-expanded η²(D + uu' − vv')) is `mul_Hs` on every unit vector — in
+// particular the identity after `set_identity_scaling`, whatever happened before.
+
+fn parse_ops(r: &Req) -> Vec<bool> {
+    r.str("ops").split(',').filter(|t| !t.is_empty()).map(|t| t == "u").collect()
+}
+fn run_soc_history(r: &Req) -> String {
+    let mut k = SecondOrderCone::<f64>::new(r.u("dim"));
+    let x = r.fs("x");
+    let mut parts = vec![];
+    for (i, upd) in parse_ops(r).iter().enumerate() {
+        let ok = if *upd {
+            k.update_scaling(&r.fs(&format!("s{}", i)), &r.fs(&format!("z{}", i)), 1.0, PD)
+        } else {
+            k.set_identity_scaling();
+            true
+        };
+        let mut hs = vec![0.0; hs_len(&k)];
+        k.get_Hs(&mut hs);
+        let mut y = vec![0.0; x.len()];
+        let mut work = vec![0.0; x.len()];
+        k.mul_Hs(&mut y, &x, &mut work);
+        let (u, v, d): (Vec<f64>, Vec<f64>, String) = match &k.sparse_data {
+            Some(sp) => (sp.u.clone(), sp.v.clone(), proto::ff(sp.d)),
+            None => (vec![], vec![], String::new()),
+        };
+        parts.push(format!(
+            "ok{i}={} w{i}={} eta{i}={} u{i}={} v{i}={} d{i}={} hs{i}={} y{i}={}",
+            proto::fb(ok), proto::ffs(&k.w), proto::ff(k.η), proto::ffs(&u), proto::ffs(&v), d, proto::ffs(&hs), proto::ffs(&y), i = i
+        ));
+    }
+    parts.join(" ")
+}
+fn run_nn_history(r: &Req) -> String {
+    let mut k = NonnegativeCone::<f64>::new(r.u("dim"));
+    let x = r.fs("x");
+    let mut parts = vec![];
+    for (i, upd) in parse_ops(r).iter().enumerate() {
+        if *upd {
+            k.update_scaling(&r.fs(&format!("s{}", i)), &r.fs(&format!("z{}", i)), 1.0, PD);
+        } else {
+            k.set_identity_scaling();
+        }
+        let mut hs = vec![0.0; r.u("dim")];
+        k.get_Hs(&mut hs);
+        let mut y = vec![0.0; x.len()];
+        let mut work = vec![0.0; x.len()];
+        k.mul_Hs(&mut y, &x, &mut work);
+        parts.push(format!("w{i}={} hs{i}={} y{i}={}", proto::ffs(verif_hooks_nncone::w(&k)), proto::ffs(&hs), proto::ffs(&y), i = i));
+    }
+    parts.join(" ")
+}
+/// max over unit vectors of the normalised distance between column j of `hmat` and `mul_Hs e_j`
+fn block_vs_mulhs(k: &mut dyn Ops, hmat: &[Vec<f64>], tol: f64) -> (f64, usize) {
+    let n = hmat.len();
+    let mut worst = (0.0f64, 0usize);
+    for j in 0..n {
+        let mut e = vec![0.0; n];
+        e[j] = 1.0;
+        let col: Vec<f64> = (0..n).map(|i| hmat[i][j]).collect();
+        let m = k.hs(&e);
+        let d = rel(&col, &m, nrm(&col).max(nrm(&m)), tol);
+        if !(d <= worst.0) {
+            worst = (d, j);
+        }
+    }
+    worst
+}
+fn oracle_soc_history(r: &Req, out: &str) -> Result<(), String> {
+    if out.starts_with("panic") {
+        return Err(format!("history panicked: {}", out));
+    }
+    let dim = r.u("dim");
+    let mut k = SecondOrderCone::<f64>::new(dim);
+    for (i, upd) in parse_ops(r).iter().enumerate() {
+        let (ok, tol) = if *upd {
+            let (s, z) = (r.fs(&format!("s{}", i)), r.fs(&format!("z{}", i)));
+            let ok = k.update_scaling(&s, &z, 1.0, PD);
+            (ok, if ok { 2e-13 * soc_cond(&s, &z) } else { 0.0 })
+        } else {
+            k.set_identity_scaling();
+            (true, 1e-14)
+        };
+        if !ok {
+            continue; // a failed update leaves a partially written state; the solver stops there
+        }
+        let hmat = soc_hmat(&k);
+        let (d, j) = block_vs_mulhs(&mut k, &hmat, tol);
+        if !(d <= 1.0) {
+            return Err(format!(
+                "after operation {} ({}): the block handed to the KKT assembly ({}) is not mul_Hs on e_{} — normalised defect {:.3e}",
+                i, if *upd { "update_scaling" } else { "set_identity_scaling" },
+                if k.sparse_data.is_some() { "sparse-expanded η²(D+uu'−vv')" } else { "dense packed Hs" }, j, d
+            ));
+        }
+        if !*upd {
+            // at the identity scaling point the block must be the identity matrix
+            for a in 0..dim {
+                for b in 0..dim {
+                    let want = if a == b { 1.0 } else { 0.0 };
+                    if !((hmat[a][b] - want).abs() <= 1e-14) {
+                        return Err(format!(
+                            "after set_identity_scaling (operation {}) the KKT block is not the identity: entry ({},{}) = {}",
+                            i, a, b, hmat[a][b]
+                        ));
+                    }
+                }
+            }
+        }
+    }
+    Ok(())
+}
+fn oracle_nn_history(r: &Req, out: &str) -> Result<(), String> {
+    if out.starts_with("panic") {
+        return Err(format!("history panicked: {}", out));
+    }
+    let dim = r.u("dim");
+    let mut k = NonnegativeCone::<f64>::new(dim);
+    for (i, upd) in parse_ops(r).iter().enumerate() {
+        if *upd {
+            k.update_scaling(&r.fs(&format!("s{}", i)), &r.fs(&format!("z{}", i)), 1.0, PD);
+        } else {
+            k.set_identity_scaling();
+        }
+        let mut h = vec![0.0; dim];
+        k.get_Hs(&mut h);
+        let hmat: Vec<Vec<f64>> = (0..dim).map(|a| (0..dim).map(|b| if a == b { h[a] } else { 0.0 }).collect()).collect();
+        let (d, j) = block_vs_mulhs(&mut k, &hmat, 1e-14);
+        if !(d <= 1.0) {
+            return Err(format!("after operation {}: the diagonal block is not mul_Hs on e_{} (defect {:.3e})", i, j, d));
+        }
+        if !*upd && h.iter().any(|v| *v != 1.0) {
+            return Err(format!("after set_identity_scaling (operation {}) the diagonal block is not the identity", i));
+        }
+    }
+    Ok(())
+}
+
 // ------------------------------------------------------------------ channel table
 
 macro_rules! ch {
@@ -729,6 +1178,22 @@ fn channels() -> Vec<Channel> {
         ch!("soc.affine_ds", u, run_soc_affine_ds, None, true, "SecondOrderCone::affine_ds", "Soc.affineDs"),
         ch!("soc.combined_ds_shift", u, run_soc_combined_ds_shift, None, true, "SymmetricConeUtils::_combined_ds_shift_symmetric (SOC)", "Soc.combinedDsShift"),
         ch!("soc.ds_from_dz_offset", u, run_soc_ds_from_dz_offset, None, true, "SecondOrderCone::Δs_from_Δz_offset", "Soc.dsFromDzOffset / C13.soc_dsOffset_eq"),
+        ch!("psd.svec_to_mat", u, run_psd_svec_to_mat, Some(oracle_psd_svec_to_mat), true, "matrix_math::svec_to_mat", "PsdTri.svecToMat / C13.psd_svec_roundtrip"),
+        ch!("psd.mat_to_svec", u, run_psd_mat_to_svec, Some(oracle_psd_mat_to_svec), true, "matrix_math::mat_to_svec", "PsdTri.matToSvec / C13.psd_svec_inner"),
+        ch!("psd.skron", u, run_psd_skron, Some(oracle_psd_skron), true, "psdtrianglecone::skron + pack_triu", "PsdTri.skronPacked / C13.psd_getHs_eq_mulHs"),
+        ch!("psd.get_hs", u, run_psd_get_hs, None, true, "PSDTriangleCone::get_Hs (after update_scaling)", "PsdTri.getHs"),
+        ch!("psd.update_scaling_tail", PSD_TOL, run_psd_update_tail, None, true, "PSDTriangleCone::update_scaling (after the LAPACK calls)", "PsdTri.assembleScaling / C13.psd_assemble_*"),
+        ch!("psd.set_identity", u, run_psd_set_identity, None, true, "PSDTriangleCone::set_identity_scaling", "PsdTri.identityScaling"),
+        ch!("psd.mul_w", PSD_TOL, run_psd_mul_w, Some(oracle_psd_mul_w), true, "psdtrianglecone::mul_Wx_inner (R)", "PsdTri.mulW"),
+        ch!("psd.mul_winv", PSD_TOL, run_psd_mul_winv, Some(oracle_psd_mul_winv), true, "psdtrianglecone::mul_Wx_inner (Rinv)", "PsdTri.mulWinv"),
+        ch!("psd.mul_hs", PSD_TOL, run_psd_mul_hs, None, true, "PSDTriangleCone::mul_Hs", "PsdTri.mulHs"),
+        ch!("psd.circ_op", PSD_TOL, run_psd_circ_op, Some(oracle_psd_circ_op), true, "PSDTriangleCone::circ_op", "PsdTri.circOp"),
+        ch!("psd.lam_inv_circ_op", u, run_psd_lam_inv_circ_op, Some(oracle_psd_lam_inv), true, "PSDTriangleCone::λ_inv_circ_op", "PsdTri.lamInvCircOp"),
+        ch!("psd.affine_ds", u, run_psd_affine_ds, Some(oracle_psd_affine_ds), true, "PSDTriangleCone::affine_ds", "PsdTri.affineDs"),
+        ch!("psd.combined_ds_shift", PSD_TOL, run_psd_combined_ds_shift, None, true, "SymmetricConeUtils::_combined_ds_shift_symmetric (PSD)", "PsdTri.combinedDsShift"),
+        ch!("psd.ds_from_dz_offset", PSD_TOL, run_psd_ds_from_dz_offset, None, true, "SymmetricConeUtils::_Δs_from_Δz_offset_symmetric (PSD)", "PsdTri.dsFromDzOffset"),
+        ch!("soc.history", u, run_soc_history, Some(oracle_soc_history), true, "SecondOrderCone::{update_scaling, set_identity_scaling, get_Hs, mul_Hs} on one object", "Soc.runHistory / C13.soc_setIdentity_state"),
+        ch!("nn.history", u, run_nn_history, Some(oracle_nn_history), true, "NonnegativeCone::{update_scaling, set_identity_scaling, get_Hs, mul_Hs} on one object", "Nonneg.runHistory / C13.nn_setIdentity_state"),
         ch!("nn.identities", Tol::Exact, run_nn_identities, Some(oracle_identities), false, "NonnegativeCone (all scaling operators)", "-"),
         ch!("soc.identities", Tol::Exact, run_soc_identities, Some(oracle_identities), false, "SecondOrderCone (all scaling operators)", "-"),
         ch!("psd.identities", Tol::Exact, run_psd_identities, Some(oracle_identities), false, "PSDTriangleCone (all scaling operators; LAPACK not modelled)", "-"),
@@ -912,6 +1377,120 @@ fn gen_psd(s: &mut Session) {
     s.submit(Line::new("psd.identities").u("n", n).fs("s", &sv).fs("z", &zv).fs("x", &x).fs("dz", &dz).fs("ds", &ds).f("sigmamu", sm).done());
 }
 
+/// moderate-magnitude vector (the tolerance-compared PSD channels use an absolute floor)
+fn modvec(rng: &mut Rng, n: usize) -> Vec<f64> {
+    let m = 10f64.powf(rng.uniform(-1.0, 1.0));
+    (0..n).map(|_| if rng.bool(0.1) { 0.0 } else { rng.normal() * m }).collect()
+}
+
+/// the PSD functions against the model, with the LAPACK results of the implementation
+fn gen_psd_model(s: &mut Session) {
+    let n = if s.rng.bool(0.04) { 0 } else { 1 + s.rng.below(5) };
+    let m = tri(n);
+    // BLAS/LAPACK-free functions: any magnitudes, bit-exact
+    let x = anyvec(&mut s.rng, m);
+    s.submit(Line::new("psd.svec_to_mat").u("n", n).fs("x", &x).done());
+    let mat = anyvec(&mut s.rng, n * n);
+    s.submit(Line::new("psd.mat_to_svec").u("n", n).fs("m", &mat).done());
+    let mut a = modvec(&mut s.rng, n * n);
+    if s.rng.bool(0.3) {
+        a = anyvec(&mut s.rng, n * n).iter().map(|v| v.clamp(-1e100, 1e100)).collect();
+    }
+    for c in 0..n {
+        for r in c + 1..n {
+            a[r + n * c] = 0.0;
+        }
+    }
+    s.submit(Line::new("psd.skron").u("n", n).fs("a", &a).done());
+    let ident = s.rng.bool(0.1);
+    if ident && s.rng.bool(0.3) {
+        s.submit(Line::new("psd.set_identity").u("n", n).done());
+    }
+    // scaling-dependent functions: moderate magnitudes and conditioning
+    let sp = *s.rng.choose(&[1.0, 0.3, 3.0]);
+    let (ms, mz) = (10f64.powf(s.rng.uniform(-1.0, 1.0)), 10f64.powf(s.rng.uniform(-1.0, 1.0)));
+    let sv = psd_point(&mut s.rng, n, sp, ms);
+    let zv = psd_point(&mut s.rng, n, sp, mz);
+    if ident {
+        s.submit(Line::new("psd.set_identity").u("n", n).fs("s", &sv).fs("z", &zv).done());
+    }
+    let mut k = PSDTriangleCone::<f64>::new(n);
+    if !k.update_scaling(&sv, &zv, 1.0, PD) {
+        s.count("psd.model:update_scaling=false");
+        return;
+    }
+    let (lam, rr, ri) = (hp::λ(&k).to_vec(), hp::R(&k).to_vec(), hp::Rinv(&k).to_vec());
+    let rrt = hps::workmat1(&k).to_vec();
+    let base = |c: &str| Line::new(c).u("n", n).fs("s", &sv).fs("z", &zv).fs("lam", &lam).fs("r", &rr).fs("rinv", &ri);
+    s.submit(Line::new("psd.update_scaling_tail").u("n", n).fs("s", &sv).fs("z", &zv)
+        .fs("l1", hps::chol1_L(&k)).fs("l2", hps::chol2_L(&k)).fs("u", hps::svd_U(&k)).fs("vt", hps::svd_Vt(&k)).fs("sig", hps::svd_s(&k)).done());
+    let len = if s.rng.bool(0.03) { tri(m) + 1 } else { tri(m) };
+    s.submit(Line::new("psd.get_hs").u("n", n).fs("s", &sv).fs("z", &zv).fs("rrt", &rrt).u("len", len).done());
+    let x = modvec(&mut s.rng, m);
+    let y = modvec(&mut s.rng, m);
+    let dz = modvec(&mut s.rng, m);
+    let ds = modvec(&mut s.rng, m);
+    let (a, b) = (*s.rng.choose(&[1.0, -1.0, 0.5, 2.0, 0.0, 0.3]), *s.rng.choose(&[0.0, 0.0, 1.0, -1.0, 0.25, -0.7]));
+    let sm = 10f64.powf(s.rng.uniform(-8.0, 1.0));
+    let t = s.rng.below(2);
+    s.submit(base("psd.mul_w").fs("x", &x).fs("y", &y).f("a", a).f("b", b).u("t", t).done());
+    s.submit(base("psd.mul_winv").fs("x", &x).fs("y", &y).f("a", a).f("b", b).u("t", t).done());
+    s.submit(base("psd.mul_hs").fs("x", &x).done());
+    s.submit(Line::new("psd.circ_op").u("n", n).fs("y", &x).fs("z", &y).done());
+    let xa = anyvec(&mut s.rng, m);
+    s.submit(base("psd.lam_inv_circ_op").fs("x", &xa).done());
+    s.submit(base("psd.affine_ds").u("len", m).done());
+    s.submit(base("psd.combined_ds_shift").fs("dz", &dz).fs("ds", &ds).f("sigmamu", sm).done());
+    s.submit(base("psd.ds_from_dz_offset").fs("ds", &ds).done());
+}
+
+/// operation histories on one cone object (SOC on both sides of the sparse threshold, NN)
+fn gen_history(s: &mut Session) {
+    let soc = s.rng.bool(0.8);
+    let dim = if soc { 2 + s.rng.below(11) } else { s.rng.below(9) };
+    let nops = 1 + s.rng.below(5);
+    let mut ops: Vec<&str> = vec![];
+    let mut line = Line::new(if soc { "soc.history" } else { "nn.history" }).u("dim", dim);
+    let mut fails = false;
+    for i in 0..nops {
+        // make `update … identity` frequent: an identity op is likelier right after an update
+        let p_upd = if ops.last() == Some(&"u") { 0.5 } else { 0.8 };
+        if s.rng.bool(p_upd) {
+            ops.push("u");
+            let (sv, zv) = if soc {
+                let (d1, d2) = (deltas(&mut s.rng), deltas(&mut s.rng));
+                let (m1, m2) = (mags(&mut s.rng), mags(&mut s.rng));
+                let mut sv = soc_interior(&mut s.rng, dim, d1, m1);
+                let zv = soc_interior(&mut s.rng, dim, d2, m2);
+                if s.rng.bool(0.08) {
+                    sv[0] = nrm(&sv[1..]) * 0.5; // not interior: update_scaling reports failure
+                    fails = true;
+                }
+                (sv, zv)
+            } else {
+                let (m1, m2) = (mags(&mut s.rng), mags(&mut s.rng));
+                ((0..dim).map(|_| 10f64.powf(s.rng.uniform(-3.0, 3.0)) * m1).collect::<Vec<f64>>(),
+                 (0..dim).map(|_| 10f64.powf(s.rng.uniform(-3.0, 3.0)) * m2).collect::<Vec<f64>>())
+            };
+            line = line.fs(&format!("s{}", i), &sv).fs(&format!("z{}", i), &zv);
+        } else {
+            ops.push("i");
+        }
+    }
+    let x = anyvec(&mut s.rng, dim);
+    let opstr = ops.join(",");
+    if soc {
+        s.count(&format!("soc.history:{}", if dim <= 4 { "dense" } else { "sparse" }));
+        if opstr.contains("u,i") {
+            s.count(&format!("soc.history:identity-after-update:{}", if dim <= 4 { "dense" } else { "sparse" }));
+        }
+        if fails {
+            s.count("soc.history:with-failed-update");
+        }
+    }
+    s.submit(line.s("ops", &opstr).fs("x", &x).done());
+}
+
 fn generate(s: &mut Session) {
     for _ in 0..s.budget(1000, 8000) {
         gen_nn(s);
@@ -924,6 +1503,12 @@ fn generate(s: &mut Session) {
     }
     for _ in 0..s.budget(1200, 6000) {
         gen_psd(s);
+    }
+    for _ in 0..s.budget(800, 6000) {
+        gen_psd_model(s);
+    }
+    for _ in 0..s.budget(2500, 20000) {
+        gen_history(s);
     }
     let summary = MAXRES.with(|m| m.borrow().iter().map(|(k, v)| format!("{}:{:.2e}", k, v)).collect::<Vec<_>>().join(" "));
     s.note(format!("largest normalised identity residuals (must be <= 1): {}", summary));
